@@ -29,7 +29,9 @@ RULE = (
     "instance: the bodies that ran are a subset of what the eager memo-free reference runs for the same options (so no "
     "unselected switch/case/overload branch, no coalesce member after the first success, no default of a present "
     "option); (c) inside every dataset evaluation window (request tap) no other body runs after that dataset's own "
-    "body; the source of >> runs before the parameters and the function of the step applied to it.  distinct = "
+    "body; the source of >> runs before the parameters and the function of the step applied to it; (d) hostile "
+    "history on ONE long-lived instance (same dictionary object edited in place, typed twins, fail-then-complete; "
+    "caching off): at every step value and rejected-alternative bodies against the reference.  distinct = "
     "sha1(program, options); non-trivial = the reference skips at least one body that exists in the program."
 )
 ASSUMPTIONS = ["bodies whose value is needed to choose a branch (dispatch, bind source, case dispatch, Map iterables) count as needed"]
